@@ -140,6 +140,9 @@ func (x *Exec) pass() {
 	x.assertGlobal("(>= alloc@0 0)")
 	for _, c := range x.compOrder {
 		x.declConst(c+"@0", x.comps[c])
+		if strings.HasPrefix(c, "Ghost_calls_") {
+			x.assertGlobal(eq(c+"@0", "0")) // call counters start at zero
+		}
 		st.heap[c] = c + "@0"
 	}
 	x.entry = st.clone()
@@ -362,6 +365,12 @@ func (x *Exec) loopHead(li *loopInfo, st *State, variants map[*ssa.BasicBlock]Te
 			st.heap[c] = x.havocConst(c+"@loop", x.comps[c])
 		}
 		st.allocTop = x.havocAllocTop(st)
+	}
+	// ghost call counters and the last random draw may change in any loop that makes calls
+	for _, c := range x.compOrder {
+		if strings.HasPrefix(c, "Ghost_calls_") || c == "Ghost_lastrand" {
+			st.heap[c] = x.havocConst(c+"@loop", x.comps[c])
+		}
 	}
 	for _, c := range invs {
 		x.assume(st, x.evalClause(c, x.fn, st, x.entry, nil, false))
